@@ -25,6 +25,7 @@ def h_port(cfg):
     qlimit = None if mode == 'none' else sym_int('qlimit', 1)
     port = Port(env, rate, qlimit, mode == 'bytes', eid)
     held, accepted, arrivals, dropped = [], [], {}, []
+    arr_list = []          # arrival instants of the accepted entries, in order (one object may be accepted twice)
 
     def on_dep(pkt):
         for i, p in enumerate(held):
@@ -51,6 +52,11 @@ def h_port(cfg):
                 yield env.timeout(sym_num('g%d' % k, sort, 0))
             size = sym_int('s%d' % k, 1)
             pkt = mk_packet(Packet, env.now, size, k)
+            if cfg.get('reuse') and k == n - 1 and accepted and not any(p is accepted[0] for p in held):
+                # the first packet object comes by again (a retransmission of the object its sender keeps)
+                pkt = accepted[0]
+                size = pkt.size
+                cover('same-object-again')
             if twin is not None:
                 twin.put(mk_packet(Packet, env.now, size, 1000 + k))
             waiting = len(port.store.items)
@@ -75,6 +81,7 @@ def h_port(cfg):
                 held.append(pkt)
                 accepted.append(pkt)
                 arrivals[k] = env.now
+                arr_list.append(env.now)
                 check('c09.perhop-stamp', eid in pkt.perhop_time and eq(pkt.perhop_time.get(eid, -1), env.now))
                 if mode == 'bytes':
                     check('c09.occupancy<=limit', le(_held_bytes(held), qlimit))
@@ -97,8 +104,7 @@ def h_port(cfg):
           'departures %s accepted %s' % ([p.packet_id for p, _ in rec.log], [p.packet_id for p in accepted]))
     if len(rec.log) == len(accepted):
         prev = None
-        for (p, t), a in zip(rec.log, accepted):
-            arr = arrivals[a.packet_id]
+        for (p, t), a, arr in zip(rec.log, accepted, arr_list):
             start = arr if prev is None else smax(arr, prev)
             exp = start + (Fraction(8) * a.size / rate if rate > 0 else 0)
             check('c09.departure-time', eq(t, exp), a.packet_id)
@@ -295,6 +301,8 @@ def jobs(tier, seed):
             cfg = {'n': 5, 'sorts': 'int', 'w': 2, 'rate': 8, 'bytes': by, 'maxp': '1/2'}
             cfg.update(dict(min_th=100, max_th=300, qlimit=400) if by else dict(min_th=1, max_th=3, qlimit=4))
             js.append({'harness': 'red', 'cfg': cfg, 'weight': 300, 'opts': {'max_paths': 40000}})
+    # the same packet object passes the port twice (second pass after it has left): stamped with the arrival time of that pass
+    js.append({'harness': 'port', 'weight': 10, 'cfg': {'rate': 8, 'mode': 'none', 'n': 3, 'sorts': 'int', 'burst': [0, 0, 0], 'reuse': True}})
     # two ports in one environment
     for mode in ('bytes', 'pkts'):
         js.append({'harness': 'port', 'weight': 10, 'cfg': {'rate': 8, 'mode': mode, 'n': 3, 'sorts': 'int', 'burst': [0, 1, 0], 'twin': True}})
